@@ -27,6 +27,9 @@ pub enum Scen {
     /// as Unilateral, and the sweep of our output, the first-level and the second-level HTLC
     /// spends are confirmed in three further blocks that can be disconnected again
     Swept,
+    /// only new / forget of three ids and restarts (no funding, no blocks): the order in which
+    /// ids are forgotten and recreated
+    Ids,
 }
 
 #[derive(Clone, Debug, Serialize, Deserialize)]
@@ -329,6 +332,14 @@ impl Model for NodeModel {
         if s.nops >= self.cfg.max_ops {
             return v;
         }
+        if self.cfg.scen == Scen::Ids {
+            v.push(Op::Restart);
+            for d in [1u64, 2, 3] {
+                v.push(Op::New(d));
+                v.push(Op::Forget(d));
+            }
+            return v;
+        }
         v.push(Op::Restart);
         v.push(Op::Heartbeat);
         if self.cfg.monitors && self.cfg.scen == Scen::Lifecycle {
@@ -352,6 +363,7 @@ impl Model for NodeModel {
                     }
                 }
             }
+            Scen::Ids => {}
             Scen::Unilateral | Scen::Swept => {
                 v.push(Op::Forget(1));
                 v.push(Op::New(1));
@@ -567,6 +579,7 @@ fn configs_plain(tier: Tier, monitors: bool) -> Vec<NodeCfg> {
             NodeCfg { scen: Scen::Mutual, max_ops: 5, monitors, cloud: false },
             NodeCfg { scen: Scen::DoubleSpend, max_ops: 5, monitors, cloud: false },
             NodeCfg { scen: Scen::Lifecycle, max_ops: 4, monitors, cloud: false },
+            NodeCfg { scen: Scen::Ids, max_ops: 6, monitors, cloud: false },
             NodeCfg { scen: Scen::Swept, max_ops: 5, monitors, cloud: false },
         ],
         (Tier::Quick, true) => vec![
@@ -580,6 +593,7 @@ fn configs_plain(tier: Tier, monitors: bool) -> Vec<NodeCfg> {
             NodeCfg { scen: Scen::DoubleSpend, max_ops: 7, monitors, cloud: false },
             NodeCfg { scen: Scen::Unilateral, max_ops: 7, monitors, cloud: false },
             NodeCfg { scen: Scen::Swept, max_ops: 6, monitors, cloud: false },
+            NodeCfg { scen: Scen::Ids, max_ops: 8, monitors, cloud: false },
         ],
     }
 }
